@@ -377,6 +377,34 @@ class Contract:
         else:
             stmts = strip_docstring(fi.node.body)
             prefix_mode = False
+            seg = getattr(self, "segment", None)
+            if seg is not None:
+                # segment contract: the statements from the first one matching seg[0] up to (not including) the first
+                # later one matching seg[1]; its free variables are the function's parameters and `closure`
+                srcs = [ast_unparse(s_) for s_ in stmts]
+                starts = [i_ for i_, t_ in enumerate(srcs) if seg[0](t_)]
+                if not starts:
+                    raise Unsupported("segment contract %s: start statement not found" % self.target)
+                ends = [i_ for i_, t_ in enumerate(srcs) if i_ > starts[0] and seg[1](t_)] if seg[1] else [len(stmts)]
+                if not ends:
+                    raise Unsupported("segment contract %s: end statement not found" % self.target)
+                stmts = stmts[starts[0]:ends[0]]
+            drop = getattr(self, "drop_stmt", None)
+            if drop is not None:
+                # statements left out of the verified text (named in the evidence): each must be an expression
+                # statement (a call for effect) - nothing later in the function can depend on a value it binds
+                kept = []
+                self.dropped = []
+                for s_ in stmts:
+                    t_ = ast_unparse(s_)
+                    if drop(t_):
+                        import ast as _a
+                        if not isinstance(s_, _a.Expr):
+                            raise Unsupported("dropped statement is not an expression statement: %s" % t_[:60])
+                        self.dropped.append(" ".join(t_.split())[:120])
+                    else:
+                        kept.append(s_)
+                stmts = kept
             if getattr(self, "prefix_until", None) is not None:
                 # guard contract: only the statements before the first one matching prefix_until are executed; what is
                 # verified is that the guard conditions (raises) are checked before anything else happens.  The rest
@@ -407,7 +435,14 @@ class Contract:
                     if _exc_match(e, en):
                         allowed.append(cond)
                 goal = z3.Or(*allowed) if allowed else z3.BoolVal(False)
-                obls.append(Obligation("raises.%s.allowed/%s" % (e, tag), self._sliced(s, "raises." + e, []), goal,
+                rl = []
+                if getattr(self, "lemmas_on_raise", False):
+                    # hint lemmas about the entry state are also available on exceptional paths (proved first)
+                    for lname, lf in self.lemmas(c0, Ctx(eng, dict(s.heap)), a, None).items():
+                        obls.append(Obligation("lemma.%s/%s" % (lname, tag), self._sliced(s, "lemma." + lname, rl), lf,
+                                               info={"path": s.trace}))
+                        rl.append((lname, lf))
+                obls.append(Obligation("raises.%s.allowed/%s" % (e, tag), self._sliced(s, "raises." + e, rl), goal,
                                        info={"path": s.trace, "exception": e}))
                 # exception safety clauses
                 c1 = Ctx(eng, dict(s.heap))
@@ -440,9 +475,6 @@ class Contract:
                                            info={"path": s.trace}))
                     res = sv_bool(bval(res.t))
             # "must raise" direction: on a normal path none of the exact-raise conditions holds
-            for en, cond in exc_spec.items():
-                obls.append(Obligation("raises.%s.required/%s" % (en, tag), s.assumptions(), z3.Not(cond),
-                                       info={"path": s.trace}))
             c1 = Ctx(eng, dict(s.heap))
             for gkey, gterm in self.ghost_witness(c0, c1, a, res).items():
                 # ghost state has no code: the contract supplies the new value, either as a term or pointwise as a
@@ -470,6 +502,10 @@ class Contract:
                 obls.append(Obligation("lemma.%s/%s" % (name, tag), self._sliced(s, "lemma." + name, lemmas), f,
                                        info={"path": s.trace}))
                 lemmas.append((name, f))
+            for en, cond in exc_spec.items():
+                obls.append(Obligation("raises.%s.required/%s" % (en, tag),
+                                       s.assumptions() + ([f_ for (_, f_) in lemmas] if getattr(self, "lemmas_on_raise", False) else []),
+                                       z3.Not(cond), info={"path": s.trace}))
             for name, f in self._in_post_ghost(eng, c0, a, lambda: self.post(c0, c1, a, res)).items():
                 obls.append(Obligation("post.%s/%s" % (name, tag), self._sliced(s, name, lemmas), f,
                                        info={"path": s.trace}))
@@ -644,6 +680,12 @@ def make_symbolic(eng, st, name, spec):
     if spec == "range":
         a, b, s = fresh(name + "_start", Int), fresh(name + "_stop", Int), fresh(name + "_step", Int)
         return SV("range", x=(sv_int(a), sv_int(b), sv_int(s)))
+    if spec == "seq":
+        return SV("seq", fresh(name, z3.SeqSort(Val)))
+    if spec == "list":
+        n = fresh(name + "_len", Int)
+        st.assume(n >= 0)
+        return SV("list", fresh(name + "_items", z3.ArraySort(Int, Val)), x=n)
     if spec == "blob":
         from .iomodel import BSeq, byte_range
         b = fresh(name, BSeq)
@@ -814,7 +856,8 @@ class LoopSpec:
             s.obls.append(Obligation("loop%d.lemma.prefix_step" % ordinal, [0 <= k, k < n], lem, info={"prefer": "cvc5"}))
             s.define(lem)
             if self.lemmas:
-                for f in self.lemmas(LoopCtx(eng, s, cL, k=k, seq=es)):
+                for j_, f in enumerate(self.lemmas(LoopCtx(eng, s, cL, k=k, seq=es))):
+                    s.oblige("loop%d.lemma.hint%d" % (ordinal, j_), f)
                     s.define(f)
             eng.assign(node.target, eng.schema.refine(SV("val", es[k])), s)
             for (s2, ctrl) in eng.exec_stmts(node.body, s):
@@ -830,8 +873,38 @@ class LoopSpec:
             self._assume_inv(eng, st, LoopCtx(eng, st, cL, k=n, seq=es))
             st.define(_z3.Extract(es, 0, n) == es)
             if self.lemmas:
-                for f in self.lemmas(LoopCtx(eng, st, cL, k=n, seq=es)):
+                for j_, f in enumerate(self.lemmas(LoopCtx(eng, st, cL, k=n, seq=es))):
+                    st.oblige("loop%d.lemma.exit_hint%d" % (ordinal, j_), f)
                     st.define(f)
+            for name in _target_names(node.target):
+                st.env[name] = SV("poison", x="loop variable %s" % name)
+            return [(st, None)] + outs
+        if it.k == "range":
+            # ordered iteration over range(start, stop) (step 1): k completed iterations, loop variable start + k
+            a_, b_, s_ = it.x
+            if not (_z3.is_int_value(_z3.simplify(eng.as_int(s_, st))) and _z3.simplify(eng.as_int(s_, st)).as_long() == 1):
+                raise Unsupported("invariant loop over a range with a step")
+            start, stop = eng.as_int(a_, st), eng.as_int(b_, st)
+            n = _z3.If(stop > start, stop - start, 0)
+            self._assert_inv(eng, st, LoopCtx(eng, st, cL, k=_z3.IntVal(0)), "%d.init" % ordinal)
+            self._havoc(eng, st)
+            s = st.fork()
+            k = fresh("k", Int)
+            s.assume(_z3.And(0 <= k, k < n))
+            self._assume_inv(eng, s, LoopCtx(eng, s, cL, k=k))
+            if self.lemmas:
+                for j_, f in enumerate(self.lemmas(LoopCtx(eng, s, cL, k=k))):
+                    s.oblige("loop%d.lemma.hint%d" % (ordinal, j_), f)
+                    s.define(f)
+            eng.assign(node.target, sv_int(start + k), s)
+            for (s2, ctrl) in eng.exec_stmts(node.body, s):
+                if ctrl is not None and ctrl[0] == "raise":
+                    outs.append((s2, ctrl))
+                    continue
+                if ctrl is not None and ctrl[0] in ("return", "break"):
+                    raise Unsupported("return/break in invariant loop")
+                self._assert_inv(eng, s2, LoopCtx(eng, s2, cL, k=k + 1), "%d.step" % ordinal)
+            self._assume_inv(eng, st, LoopCtx(eng, st, cL, k=n))
             for name in _target_names(node.target):
                 st.env[name] = SV("poison", x="loop variable %s" % name)
             return [(st, None)] + outs
